@@ -10,11 +10,12 @@ import DemesVerif.Ops.Ms
 import DemesVerif.Ops.Heap
 import DemesVerif.Ops.Spec
 import DemesVerif.Ops.Builder
+import DemesVerif.Ops.Records
 namespace Demes.Ops
 open Lean
 
 def dispatchers : List (String → Json → Option Json) :=
-  [Core.dispatch?, IO.dispatch?, Handles.dispatch?, Cli.dispatch?, Cost.dispatch?, Ms.dispatch?, Heap.dispatch?, SpecOps.dispatch?, Builder.dispatch?]
+  [Core.dispatch?, IO.dispatch?, Handles.dispatch?, Cli.dispatch?, Cost.dispatch?, Ms.dispatch?, Heap.dispatch?, SpecOps.dispatch?, Builder.dispatch?, Records.dispatch?]
 
 def dispatch (j : Json) : Json :=
   match j.getObjValAs? String "op" with
